@@ -80,8 +80,8 @@ kf("C05", "C05-abs-unsigned", "abs(u32) is emitted as abs(uint), which GLSL does
    ["C05|F1/call/abs/*u32*|*|malformed-output*", "C05|F4c/*call:abs:u32*|*|malformed-output*"])
 
 # ---------------------------------------------------------------- C10 (robustness)
-kf("C10", "C10-swizzle-chain-exponential", "a chained swizzle `v.xyzw.xyzw...` makes lowering time grow exponentially: 64 links (under 400 bytes of source) exceed the CPU cap",
-   ["C10|cpu-cap|ladder:swizzle-chain n=*"])
+kf("C10", "C10-swizzle-chain-exponential", "a chained swizzle `v.xyzw.xyzw...` makes lowering time and memory grow exponentially: 64 links (under 400 bytes of source) exceed the CPU cap or, on a faster machine, exhaust the 4 GiB address-space limit first (out of memory in Lowerer.addExpressionRaw)",
+   ["C10|cpu-cap|ladder:swizzle-chain n=*", "C10|fatal|out of memory|wgsl/internal/lower.(*Lowerer).addExpressionRaw"])
 kf("C10", "C10-glsl-zero-init-oom", "GLSL writer expands the zero value of a huge private array element by element (zeroInitValue): `var<private> a: array<i32, 2147483647>` dies with out-of-memory",
    ["C10|fatal|out of memory|glsl/internal/codegen.(*Writer).zeroInitValue"])
 kf("C10", "C10-dxil-load-store-recursion", "DXIL emitter recurses forever (tryLoadSingleStore -> emitExpression -> emitLoad ...) on a compound assignment to a struct member whose only store depends on a load of itself (`out.pos /= m * v;`): stack overflow on a valid program",
